@@ -228,6 +228,44 @@ def dirty_uploader():
     finally:
         shutil.rmtree(base, ignore_errors=True)
 
+def moving_branch():
+    """git branch without pinned commit: the downloading workspace is used again after the upstream branch moved; its second run must
+    deliver what a purely local build of the new state delivers (predictions are refreshed in normal builds)"""
+    import subprocess
+    base = tempfile.mkdtemp(prefix='c07b-'); log = []
+    env = {'GIT_CONFIG_NOSYSTEM': '1', 'GIT_AUTHOR_NAME': 'u', 'GIT_AUTHOR_EMAIL': 'u@example.com', 'GIT_COMMITTER_NAME': 'u', 'GIT_COMMITTER_EMAIL': 'u@example.com', 'HOME': base}
+    def git(cwd, *a):
+        e = dict(os.environ); e.update(env); subprocess.run(['git', *a], cwd=cwd, check=True, stdout=subprocess.DEVNULL, stderr=subprocess.DEVNULL, env=e)
+    def proj(sub):
+        d = os.path.join(base, sub, 'proj'); os.makedirs(d); p = P.Project(root=d); p.env.update(env); return p
+    try:
+        up = os.path.join(base, 'upstream'); os.makedirs(up); os.makedirs(os.path.join(base, 'archive')); git(up, 'init', '-q', '-b', 'master')
+        def commit(text):
+            open(os.path.join(up, 'data.txt'), 'w').write(text + '\n'); git(up, 'add', 'data.txt'); git(up, 'commit', '-q', '-m', text)
+        commit('version 1')
+        model = {'recipes': {'r0': {'root': True, 'checkoutSCM': {'scm': 'git', 'url': 'file://' + up, 'branch': 'master'},
+                                    'buildScript': 'cp "$1/data.txt" result.txt\n', 'packageScript': 'cp "$1/result.txt" .\n'}},
+                 'config': {}, 'files': {'default.yaml': 'archive:\n  backend: file\n  path: "%s"\n' % os.path.join(base, 'archive')}}
+        U = proj('uploader'); D = proj('down/loader'); L = proj('local')
+        for pr in (U, D, L): pr.write(model)
+        rc, out = U.bob('dev', 'r0', '--upload'); log.append('U uploads version 1')
+        if rc != 0: return None, ['(setup failed: %s)' % out[-200:]]
+        rc, out = D.bob('dev', 'r0', '--download', 'yes'); log.append('D: download yes (version 1)')
+        if rc != 0 or result_of(D) != 'version 1': return None, ['(setup failed: first download)']
+        commit('version 2'); log.append('upstream branch moves to version 2')
+        rc, out = U.bob('dev', 'r0', '--upload'); log.append('U updates and uploads version 2')
+        if rc != 0 or result_of(U) != 'version 2': return None, ['(setup failed: uploader did not update)']
+        rc, outD = D.bob('dev', 'r0', '--download', 'yes'); log.append('D: download yes, again')
+        if rc != 0: return {'kind': 'download-build-failed', 'output': outD[-400:], 'history': log}, log
+        rc, outL = L.bob('dev', 'r0', '--download', 'no'); log.append('L: purely local build')
+        if result_of(D) != result_of(L):
+            return {'kind': 'download-build-differs-from-local-build', 'result': result_of(D), 'expected': result_of(L), 'history': log, 'what': 'a stale live-build-id prediction was reused after the upstream branch moved'}, log
+        return None, log
+    except Exception as ex:
+        return None, ['harness problem: %r' % (ex,)]
+    finally:
+        shutil.rmtree(base, ignore_errors=True)
+
 def hosttool():
     """fingerprinted and/or non-relocatable tools at two locations and on two emulated hosts"""
     base = tempfile.mkdtemp(prefix='c07h-'); log = []
@@ -308,7 +346,7 @@ def replay(rep):
     n = 24 if thorough else 6; steps = 3 if thorough else 2
     tried = 0; distinct = set(); samples = []; problems = 0
     with cf.ThreadPoolExecutor(max_workers=8) as ex:
-        futs = [ex.submit(misprediction), ex.submit(dirty_uploader), ex.submit(hosttool), ex.submit(corrupt_artifact)] + [ex.submit(one_case, seed * 1000 + i, steps) for i in range(n)]
+        futs = [ex.submit(misprediction), ex.submit(dirty_uploader), ex.submit(moving_branch), ex.submit(hosttool), ex.submit(corrupt_artifact)] + [ex.submit(one_case, seed * 1000 + i, steps) for i in range(n)]
         for f in cf.as_completed(futs):
             w, log = f.result(); tried += 1
             if log and (str(log[-1]).startswith('harness problem') or str(log[-1]).startswith('(project does not build') or str(log[-1]).startswith('(setup')): problems += 1; samples.append({'problem': log[-1]}) if len(samples) < 3 else None; continue
@@ -317,5 +355,5 @@ def replay(rep):
             if w is not None: return {'reproduced': True, 'tried': tried, 'witness': w}
     if problems > tried // 2: return {'reproduced': None, 'detail': 'harness problems in %d of %d cases: %s' % (problems, tried, samples[:2])}
     return {'reproduced': False, 'tried': tried, 'distinct': len(distinct), 'samples': samples,
-            'bound': '4 directed scenarios (live-build-id misprediction + restart, uploader with a locally modified git checkout, fingerprinted/non-relocatable tool at 2 locations x 2 hosts, tampered artifacts) + %d generated projects x %d edits, uploader + downloader (3 states, random download mode, 2 emulated hosts) + local reference builds' % (n, steps),
+            'bound': '5 directed scenarios (live-build-id misprediction + restart, uploader with a locally modified git checkout, downloader reused after the upstream branch moved, fingerprinted/non-relocatable tool at 2 locations x 2 hosts, tampered artifacts) + %d generated projects x %d edits, uploader + downloader (3 states, random download mode, 2 emulated hosts) + local reference builds' % (n, steps),
             'detail': 'download builds equalled local builds; equal Build-Ids always had equal content; uploaded states were taken without build steps'}
